@@ -42,6 +42,7 @@ type propSpec struct {
 	RealStub    map[string]string
 	Extra       map[string]string
 	Exhaustive  bool
+	NeedsD2Bin  bool // the real d2 binary (no tags, no overlay) for cross-validation
 }
 
 var props = map[string]propSpec{}
@@ -110,6 +111,19 @@ func buildEngine(engine string) string {
 		fatal2("build of engine %s failed: %v\n%s", engine, err, out)
 	}
 	fmt.Printf("built %s in %.1fs (from %s working tree, -tags verif, runtime/syscall overlay)\n", engine, time.Since(start).Seconds(), repoDir())
+	return bin
+}
+
+// buildD2 builds the real d2 command from the repository's working tree (no verif tag, no
+// overlay) for cross-validation under strace.
+func buildD2() string {
+	bin := filepath.Join(buildDir(), "bin", "d2real")
+	cmd := exec.Command(goBin, "build", "-o", bin, ".")
+	cmd.Dir = repoDir()
+	cmd.Env = goEnv()
+	if out, err := cmd.CombinedOutput(); err != nil {
+		fatal2("build of the real d2 binary failed: %v\n%s", err, out)
+	}
 	return bin
 }
 
@@ -231,6 +245,12 @@ func main() {
 	os.MkdirAll(runDir, 0755)
 	defer os.RemoveAll(runDir)
 
+	if spec.NeedsD2Bin {
+		if spec.Extra == nil {
+			spec.Extra = map[string]string{}
+		}
+		spec.Extra["D2BIN"] = buildD2()
+	}
 	baseEnv := []string{"VSIM_PROP=" + *prop, "VSIM_TIER=" + *tier, "VSIM_MASTER=" + strconv.FormatUint(master, 10), "VSIM_REPO=" + repoDir()}
 	for k, v := range spec.Extra {
 		baseEnv = append(baseEnv, "VSIM_X_"+k+"="+v)
@@ -772,6 +792,9 @@ func writeEvidence(prop, tier string, master uint64, spec propSpec, a *aggT, det
 	}
 	if len(a.Others) > 0 {
 		cov["other_property_failures_seen"] = a.Others
+	}
+	if v, ok := a.Probes["traces_validated_against_impl"]; ok {
+		cov["traces_validated_against_impl"] = v
 	}
 	ev := map[string]any{
 		"property_id": prop,
